@@ -16,6 +16,7 @@
 #include "MTest/Constraint.hxx"
 #include "MTest/Evolution.hxx"
 #include "MTest/MTest.hxx"
+#include "C48/mock.hxx"
 
 namespace verif48 {
 
@@ -174,6 +175,14 @@ namespace verif48 {
       this->handleThermalExpansion = false;
     }
     void push(const std::shared_ptr<mtest::Constraint>& c) { this->constraints.push_back(c); }
+    //! log of the attempts (t, dt) made by the solver
+    mutable std::ostringstream alog;
+    std::pair<bool, mtest::real> prepare(mtest::StudyCurrentState& s,
+                                         const mtest::real t,
+                                         const mtest::real dt) const override {
+      alog << " a " << hex(t) << " " << hex(dt);
+      return mtest::MTest::prepare(s, t, dt);
+    }
     mtest::SolverOptions& opts() { return this->options; }
     std::vector<mtest::real>& timesRef() { return this->times; }
     size_t unknowns() const { return this->getNumberOfUnknowns(); }
